@@ -453,6 +453,40 @@ theorem closedB_sound {S : List Summary} {p : List Stmt} {A : Pts} (h : closedB 
   rw [List.all_eq_true] at h
   exact closedStmt_sound S s A (h s hs)
 
+theorem sameSet_nil {a : List Nat} (h : sameSet a [] = true) : a = [] := by
+  unfold sameSet at h
+  rw [Bool.and_eq_true, List.all_eq_true] at h
+  cases a with
+  | nil => rfl
+  | cons x l => have := h.1 x List.mem_cons_self; simp at this
+
+theorem sameSet_sub {a b : List Nat} (h : sameSet a b = true) : a ⊆ b := by
+  unfold sameSet at h
+  rw [Bool.and_eq_true, List.all_eq_true] at h
+  intro x hx
+  simpa using h.1 x hx
+
+/-- in a list of (id, data) pairs whose ids are the positions, looking up position `f` in the data gives the pair `(f, ·)` -/
+theorem mem_of_idx {α : Type} (l : List (Nat × α)) (h : l.map (·.1) = List.range l.length) (f : Nat) (i : α)
+    (hf : (l.map (·.2))[f]? = some i) : (f, i) ∈ l := by
+  rw [List.getElem?_map] at hf
+  cases hl : l[f]? with
+  | none => rw [hl] at hf; simp at hf
+  | some p =>
+    rw [hl] at hf
+    simp only [Option.map_some, Option.some.injEq] at hf
+    have hlt : f < l.length := (List.getElem?_eq_some_iff.1 hl).1
+    have h1 : (l.map (·.1))[f]? = some p.1 := by rw [List.getElem?_map, hl]; rfl
+    rw [h, List.getElem?_range hlt] at h1
+    have hp : p = (f, i) := by
+      cases p with
+      | mk a b =>
+        simp only [Option.some.injEq] at h1
+        simp only at hf
+        rw [← h1, ← hf]
+    rw [← hp]
+    exact List.mem_of_getElem? hl
+
 theorem nil_le (A : Pts) : Le [] A := by
   intro z
   rw [get_nil]
